@@ -248,7 +248,7 @@ pub fn h_list_hist(inp: &Inp) -> u8 {
     }
 }
 
-//@ disabled-harness (List code exceeds the budget, see h_list_hist2) props=C16 name=List validate_op: Ok for the next op of an actor and for duplicates, DotRange exactly when the op skips a counter of its actor
+//@ harness props=C16 tiers=thorough covers=3 name=List validate_op: Ok for the next op of an actor and for duplicates, DotRange exactly when the op skips a counter of its actor
 #[no_mangle]
 pub fn h_list_validate_op(inp: &Inp) -> u8 {
     let mut i = In::new(inp);
@@ -326,7 +326,7 @@ fn seq_eq(a: &([u8; 4], usize), b: &([u8; 4], usize)) -> bool {
     ok
 }
 
-//@ disabled-harness (queries exceed 15 min) props=C13,C01,C02,C03,C09 name=GList: two replicas insert concurrently (symbolic indices, distinct symbolic elements); merge is commutative and equals op delivery; on the merged state insert(i,x), insert_after(id,x), insert_before(id,x) land at i, right after and right before the identified element (Vec model), duplicates absorbed
+//@ harness props=C13,C01,C02,C03,C09 covers=3,4 unwind=10 name=GList: two replicas insert concurrently (symbolic indices, distinct symbolic elements); merge is commutative and equals op delivery; on the merged state insert(i,x), insert_after(id,x), insert_before(id,x) land at i, right after and right before the identified element (Vec model), duplicates absorbed
 #[no_mangle]
 pub fn h_glist(inp: &Inp) -> u8 {
     let mut i = In::new(inp);
